@@ -56,15 +56,19 @@ def enumerate_cases(tier):
             for rev in (False, True):
                 if rev and r < 2:
                     continue
-                for fl in (False, True):
+                for fl in (False, True, "fractional-bounds-on-int-axis"):
                     labs = list(sub)[::-1] if rev else list(sub)
-                    if fl:
+                    if fl is True:
                         labs = [x * 0.5 for x in labs]
                         bounds = [None if b is None else b * 0.5 for b in BOUNDS]
+                    elif fl:
+                        if r > 4:
+                            continue
+                        bounds = [None] + [b * 0.5 for b in BOUNDS if b is not None and (b % 2 or b in (2, 4))]   # x.5 bounds (and two labels)
                     else:
                         bounds = list(BOUNDS)
                     for step in STEPS:
-                        yield "1d-monotonic", {"mode": "1d", "labels": labs, "kind": "f" if fl else "i", "step": step, "bounds": bounds}
+                        yield "1d-monotonic", {"mode": "1d", "labels": labs, "kind": "f" if fl is True else "i", "step": step, "bounds": bounds}
     # non-monotonic numeric axes: strict rule
     for base in ([1, 2, 3, 4], [0, 1, 2, 3], [-1, 0, 1]):       # (0 is a label like any other)
         for perm in itertools.permutations(base):
@@ -110,7 +114,10 @@ def _bound(draw, labs, kind):
     inc, dec = im.monotonic(labs)
     if not (inc or dec):
         return draw(st.sampled_from([None] + list(labs)))
-    c = draw(st.integers(0, 5))
+    c = draw(st.integers(0, 6))
+    if c == 6 and labs and kind == "i":
+        return draw(st.sampled_from(labs)) + draw(st.sampled_from([0.5, -0.5, 0.2, -0.8]))     # a fractional bound on an integer axis
+    c = min(c, 5)
     if c == 0 or not labs:
         return None if c == 0 or not labs and draw(st.booleans()) else (1 if kind == "i" else 0.75)
     if c in (1, 2):
